@@ -89,6 +89,10 @@ pub fn gen_client_history(property: &str, seed: u64) -> ClientHistory {
                 if r.chance(1, 3) {
                     ops.push(COp::RetryTower { t });
                 }
+                if r.chance(1, 4) {
+                    // the subscription ran out while the tower was away: the retrier is the first to learn about it
+                    ops.push(COp::Lapse { t });
+                }
                 ops.push(COp::Default { t, reply: Reply::Accept });
                 ops.push(COp::Advance { secs: cfg.auto_retry_delay + 2 * cfg.max_interval + 15 });
             }
@@ -107,7 +111,13 @@ pub fn gen_client_history(property: &str, seed: u64) -> ClientHistory {
                     0 => ops.push(COp::ListTowers),
                     1 => ops.push(COp::GetTowerInfo { t }),
                     2 => ops.push(COp::RetryTower { t }),
-                    3 => ops.push(COp::Latency { t, ms: *r.pick(&[0u32, 20, 500, 5000]) }),
+                    3 => {
+                        if r.chance(1, 3) {
+                            ops.push(COp::Lapse { t })
+                        } else {
+                            ops.push(COp::Latency { t, ms: *r.pick(&[0u32, 20, 500, 5000]) })
+                        }
+                    }
                     _ => ops.push(COp::Register { t }),
                 }
             }
